@@ -161,7 +161,9 @@ theorem exec_frm (p : SProg) (i : Nat × Nat)
     (hp : ∀ kind key cnt, ∀ op ∈ p.ops kind key cnt, opId op ≠ some i) : ∀ fuel, Frm i (exec p fuel) := by
   intro fuel
   induction fuel with
-  | zero => intro st t hw _; exact Kept.refl hw
+  | zero =>
+    intro st t hw _
+    cases t <;> simp only [exec] <;> first | exact Kept.refl hw | (split <;> exact Kept.refl hw)
   | succ fuel ih =>
     intro st t hw ht
     cases t with
